@@ -18,6 +18,9 @@ import XotModel.Lemmas.Parse
 import XotModel.Lemmas.ParseContent
 import XotModel.Lemmas.ParseWitnessData
 import XotModel.Lemmas.TokenShapeB
+import XotModel.Lemmas.LexSlice
+import XotModel.Lemmas.LexCanon
+import XotModel.Model.ParseString
 
 namespace XotModel.Props
 open XotModel XotModel.Witness
@@ -287,5 +290,54 @@ example : (build .document twoRootsLen Env.fresh twoRoots none).err? =
 example : (build .document mismatchLen Env.fresh mismatch none).err? =
     some (.invalidCloseTag [] ['b'] ⟨5, 6⟩) := by
   rw [build_eq_buildE]; decide +kernel
+
+/-! ### Strings: the reference tokenizer (Model/Lex.lean — xmlparser 0.13.6 as written, total, tied
+to the crate by the `lex` suite) composed with the builder -/
+
+/-- The token-shape contract — the hypothesis of `C03_nopanic` — is a theorem about the reference
+    tokenizer: it holds of its output on EVERY string, in both modes. -/
+theorem C03_lex_shape (m : Mode) (s : Str) : TokenShape (strLen s) (lexMode m s).1 (lexMode m s).2 := by
+  cases m
+  · exact lexDocument_shape s
+  · exact lexFragment_shape s
+
+/-- In document mode the tokenizer never emits an end tag at depth 0 (in fragment mode it does:
+    `strayClose` above). -/
+theorem C03_lex_no_stray_close (s : Str) : NoStrayClose 0 (lexDocument s).1 :=
+  lexDocument_noStrayClose s
+
+/-- `parse` / `parse_fragment` never panic, on ANY string (tokenizer and builder are total
+    functions; no panic outcome is reachable). -/
+theorem C03_string_nopanic (m : Mode) (env : Env) (s : Str) : parseString m env s ≠ .panic :=
+  C03_nopanic m (strLen s) env _ _ (C03_lex_shape m s)
+
+/-- Whatever `parse` / `parse_fragment` accept, from ANY string, is structurally valid and has no
+    adjacent text nodes. -/
+theorem C03_string_sound {m : Mode} {env : Env} {s : Str} {p : Parsed}
+    (h : parseString m env s = .ok p) : StructValid p.tree ∧ NoAdjacentText p.tree :=
+  C03_sound h
+
+/-- … and for `parse`: exactly one element and no text at top level. -/
+theorem C03_string_sound_document {env : Env} {s : Str} {p : Parsed}
+    (h : parseString .document env s = .ok p) : WellFormedTop p.tree :=
+  C03_sound_document h
+
+/-- A string on which the tokenizer fails is rejected (with `ParseError::XmlParser`). -/
+theorem C03_string_reject_lexerr (m : Mode) (env : Env) (s : Str) (pos : Nat)
+    (h : (lexMode m s).2 = some pos) (p : Parsed) : parseString m env s ≠ .ok p := by
+  unfold parseString; rw [h]; exact C03_reject_lexerr m _ env _ pos p
+
+/-- Non-vacuity: the canonical spelling of `lexWitness3` (`<a>x</a>`) is accepted as a document,
+    through tokenizer and builder. -/
+def lexWitness3 : List Token :=
+  [.elementStart ⟨[], 0⟩ ⟨['a'], 0⟩ ⟨[], 0⟩, .elementEnd .open ⟨[], 0⟩, .text ⟨['x'], 0⟩,
+   .elementEnd (.close ⟨[], 0⟩ ⟨['a'], 0⟩) ⟨[], 0⟩]
+
+example : renderTokens lexWitness3 = ['<', 'a', '>', 'x', '<', '/', 'a', '>'] := by decide
+example : (parseString .document Env.fresh ['<', 'a', '>', 'x', '<', '/', 'a', '>']).isOk = true := by
+  have h := lexDocument_render lexWitness3 (by decide)
+  rw [show renderTokens lexWitness3 = ['<', 'a', '>', 'x', '<', '/', 'a', '>'] from by decide] at h
+  simp only [parseString, lexMode]
+  rw [h, build_eq_buildE]; decide +kernel
 
 end XotModel.Props
